@@ -113,12 +113,13 @@ func connect(transport string, rng *rand.Rand, progress *int64, fin func(qnet.En
 }
 
 func c10(c *wk.Ctx) {
-	c.Note("rule", "each plan: one connection over a transport (harness stream with yields and read fragmentation, net.Pipe, unix, tcp, tls, fd-passing pipe), 2-16 sender goroutines released by a barrier, each sending its own numbered messages (payload 0 B - 256 KiB, content a keyed function of (sender, seq)) through EndPoint.Send; the receiving endpoint has an 'all' handler plus 2-5 handlers with overlapping filters (sender set, type, seq parity), queues sized for the whole traffic; in a third of the plans a further handler with a full one-slot queue selects everything as well. Oracle: the 'all' handler gets every (sender, seq) exactly once with intact payload and each sender's messages in order; every other handler gets exactly its filter applied to that sequence, in the same order; loss is decided by the quiescence detector. Distinct non-trivial = distinct (transport, plan) with at least two senders whose messages interleaved at the receiver.")
+	c.Note("rule", "each plan: one connection over a transport (harness stream with yields and read fragmentation, net.Pipe, unix, tcp, tls, fd-passing pipe), 2-16 sender goroutines released by a barrier, each sending its own numbered messages (payload 0 B - 256 KiB, content a keyed function of (sender, seq)) through EndPoint.Send; the receiving endpoint has an 'all' handler plus 2-5 handlers with overlapping filters (sender set, type, seq parity), queues sized for the whole traffic; in a third of the plans a further handler with a full one-slot queue selects everything as well. Oracle: the 'all' handler gets every (sender, seq) exactly once with intact payload and each sender's messages in order; every other handler gets exactly its filter applied to that sequence, in the same order; loss is decided by the quiescence detector. Stream churn: the receiver's handler set grows to 13-32 handlers and shrinks again step by step to the two real ones ('all', 'even ids'), a numbered batch after every change: each real handler gets exactly its selection, in order (sweep over handlers registered x handlers removed first). Distinct non-trivial = distinct (transport, plan) with at least two senders whose messages interleaved at the receiver.")
 	plansPer := c.Pick(8, 300)
 	c.Cases("plan", len(c10transports)*plansPer, func(i int, rng *rand.Rand) {
 		transport := c10transports[i%len(c10transports)]
 		c10one(c, i, rng, transport)
 	})
+	c.Cases("churn", c.Pick(600, 6000), func(i int, rng *rand.Rand) { c10churn(c, i, rng) })
 }
 
 func c10one(c *wk.Ctx, i int, rng *rand.Rand, transport string) {
